@@ -49,6 +49,9 @@ class Hooks:
     def before_join(self, st, fn, why):
         pass
 
+    def on_return(self, st, fn, ret):
+        pass
+
     def on_loop(self, fn, head, info):
         self.log.append(('loop', fn.name, head, info))
 
@@ -116,6 +119,7 @@ class Interp:
                 s.tags.pop(('havoc', rn), None)
             for tk in [t for t in s.tags if isinstance(t, tuple) and t and t[0] in ('loophead', 'fw') and t[1] == fn.name]:
                 del s.tags[tk]
+            self.hooks.on_return(s, fn, rv)
             if isinstance(rv, Ptr) and rv.region.startswith(prefix):
                 rv = Top('ptr', 'dangling pointer to local of %s' % fn.name)
             # the caller's frame object is shared by all exit disjuncts: give each its own copy
